@@ -317,11 +317,13 @@ class HasherHybrid(CbMixin, ProgMixin):
         piece_length: int,
         progress: int = 1,
         progress_bar=None,
+        pad: bool = True,
     ):
         """
         Construct Hasher class instances for each file in torrent.
         """
         self.path = path
+        self.pad = pad
         self.piece_length = piece_length
         self.pieces = []
         self.layer_hashes = []
@@ -391,7 +393,7 @@ class HasherHybrid(CbMixin, ProgMixin):
             layer_hash = merkle_root(blocks)
             self.cb(layer_hash)
             self.layer_hashes.append(layer_hash)
-            if plength > 0:
+            if plength > 0 and self.pad:
                 self.padding_file = {
                     "attr": "p",
                     "length": plength,
@@ -450,11 +452,13 @@ class FileHasher(CbMixin, ProgMixin):
         progress: int = 1,
         hybrid: bool = False,
         progress_bar=None,
+        pad: bool = True,
     ):
         """
         Construct Hasher class instances for each file in torrent.
         """
         self.path = path
+        self.pad = pad
         self.piece_length = piece_length
         self.pieces = []
         self.layer_hashes = []
@@ -544,7 +548,7 @@ class FileHasher(CbMixin, ProgMixin):
                 self.progbar.close_out()
             self._calculate_root()
         if self.hybrid:
-            if plength > 0:
+            if plength > 0 and self.pad:
                 self.padding_file = {
                     "attr": "p",
                     "length": plength,
